@@ -141,6 +141,11 @@ impl<'a, 'tcx> D<'a, 'tcx> {
                     j.put("fn", J::s(tcx.def_path_str(*d)));
                     j.put("fn_args", J::s(format!("{:?}", args)));
                 }
+                if let mir::Const::Unevaluated(uv, _) = c.const_ {
+                    if let Some(p) = uv.promoted {
+                        j.put("promoted", J::Int(p.index() as i128));
+                    }
+                }
                 if let Some(did) = c.check_static_ptr(tcx) {
                     j.put("static", J::s(tcx.def_path_str(did)));
                     j.put(
@@ -436,6 +441,16 @@ impl<'a, 'tcx> D<'a, 'tcx> {
 
 pub fn body_j<'tcx>(tcx: TyCtxt<'tcx>, did: DefId) -> J {
     let body: &Body<'tcx> = tcx.optimized_mir(did);
+    let mut j = one_body_j(tcx, did, body);
+    let mut proms = vec![];
+    for pb in tcx.promoted_mir(did).iter() {
+        proms.push(one_body_j(tcx, did, pb));
+    }
+    j.put("promoted", J::Arr(proms));
+    j
+}
+
+fn one_body_j<'tcx>(tcx: TyCtxt<'tcx>, did: DefId, body: &Body<'tcx>) -> J {
     let d = D { tcx, body, def: did };
     // locals
     let mut names: Vec<Option<String>> = vec![None; body.local_decls.len()];
